@@ -145,9 +145,12 @@ func (r *replication) replicate(c *conn, req *appendReq) error {
 		}
 
 		if r.nextIndex < r.ldrLastIndex && !r.log.Contains(r.nextIndex) {
-			if err := r.sendInstallSnapReq(c, req); err == nil {
-				continue
+			// (an error ends this connection like any other: an answer that was
+			// only late would otherwise be read as the answer to the next request)
+			if err := r.sendInstallSnapReq(c, req); err != nil {
+				return err
 			}
+			continue
 		}
 
 		// todo: before starting pipeline, check if sending snap
